@@ -9,7 +9,7 @@ merged), and the answer of every access of every history is compared with the ea
 Because the model's answer does not depend on the history, this decides both halves of the property: the values are
 the eager ones, and no access changes what a later access returns.
 """
-import sys, itertools
+import sys, itertools, json
 from operator import attrgetter
 
 from vf.core import Check
@@ -19,6 +19,7 @@ from vf.lib.c13_model import Precond, ENC
 
 from coba.pipes.rows import HeadRows, EncodeRows, DropRows, LabelRows, EncodeCatRows, LazyDense, LazySparse
 from coba.pipes.readers import ArffReader
+from coba.environments.openml import OpenmlSource
 from coba.primitives import Categorical
 from coba.context import CobaContext, NullLogger, MemoryCacher
 
@@ -261,7 +262,7 @@ STAGE_CLASS = {'head': 'Head', 'headmap': 'Head', 'shead': 'Head', 'enc': 'Encod
 SRC_CLASS = {'dl': 'dense lists', 'dc': 'dense lists', 'sk': 'sparse dicts', 'si': 'sparse dicts', 'sc': 'sparse dicts',
              'ad': 'lazy ARFF dense', 'as': 'lazy ARFF sparse', 'aq': 'lazy ARFF dense', 'lz': 'LazyDense rows', 'lzs': 'LazySparse rows',
              'lzr': 'LazyDense rows', 'ae': 'lazy ARFF dense', 'aes': 'lazy ARFF sparse',
-             'adt': 'lazy ARFF dense', 'aet': 'lazy ARFF dense', 'aq4': 'lazy ARFF dense'}
+             'adt': 'lazy ARFF dense', 'aet': 'lazy ARFF dense', 'aq4': 'lazy ARFF dense', 'od': 'lazy ARFF dense', 'os': 'lazy ARFF sparse'}
 SIMPLER_SRC = {'dc': ['dl'], 'aq': ['ad'], 'si': ['sk'], 'sc': ['sk'], 'as': ['sk'], 'lzs': ['sk', 'as'], 'lz': ['ad'], 'lzr': ['lz'], 'ae': ['ad'], 'aes': ['as'], 'adt': ['ad'], 'aet': ['ae', 'adt']}
 
 
@@ -313,6 +314,7 @@ class C13(Check):
             'the real pipeline and every answer is compared with the eager model.  PLUS re-use cases = (table 1, table 2, pipeline valid on both): ONE set of real filter objects is applied to table 1, to a different table 2 '
             '(unheaded / headed / other header order / other names / sparse keyed by name or by column number / the same table for the Categorical ones) and to table 1 again, '
             'and after every application every access of the full alphabet on every output row is compared with the eager model of that table.  '
+            'PLUS openml cases = OpenmlSource (data id / task id, drop_missing on / off) served from a memory cacher with a dense and a sparse ARFF dataset holding a row identifier, an ignored, a string, numeric and nominal features and a missing value, the target being each column in turn; every access on every row it yields is compared with the eager table (ignored columns and, if asked, rows with missing values removed, target selected).  '
             'PLUS cross-row order cases = for every lazy file (ARFF dense / sparse incl. a 4-line file whose lines have no quote, both quote kinds, single quotes, double quotes; LazyDense / LazySparse) EVERY order of first-accessing its rows (by list / by one item / by len), after which every access of the full alphabet on every row is compared with the eager table.  '
             'PLUS feats cases = the feats of every labelled dense pipeline fed to one more stage (EncodeRows list / dict by index / dict by a header that keeps its position, DropRows by index / by such a header), i.e. a stage that sees rows whose header map has more entries than the row has columns.  '
             'A case is non-trivial when the row object is a lazy view (not a list/dict) or an EncodeCatRows stage rewrote it; every re-use case (>=1 stage), every feats case and every order case with a non-natural order is non-trivial')
@@ -329,6 +331,8 @@ class C13(Check):
         'row.missing of a lazy ARFF row = some cell of the written data line is the bare marker ? (also where a nominal attribute declares a level ?); a row holding a QUOTED ? is left open: its flag is not read and DropRows(missing) is not applied to that table (C12 lists that question)',
         'a header map may name only some columns and may give one column several names: row[name], EncodeRows / DropRows / LabelRows by name act on the column the name maps to; an EncodeRows dict does not address one column through two of its keys',
         'a stage applied to row.feats and naming a column by header may act on that column or leave the table alone (coba keeps no header support on feats); length, positions and every other column are exact',
+        'LabelRows given a POSITION on header-keyed sparse rows (sparse ARFF, HeadRows over dicts) selects the header at that position of the file / header map, also through DropRows / EncodeRows stages in between',
+        'OpenmlSource: a feature is ignored when is_ignore or is_row_identifier is true or its data_type is neither numeric nor nominal, except the target; only the rows it yields are compared (json descriptions are trusted)',
         're-use cases contain only stages whose parameters do not depend on one table\'s cells (no cell-equality row predicates); a re-use answer is a violation only if fresh filter objects give the eager answer for the same access',
         '"RuntimeError: generator ignored GeneratorExit" raised inside LazyDense._enc_all when an iteration is abandoned at a ? / "" cell is reported by CPython as unraisable, changes no value and is only counted',
     ]
@@ -386,6 +390,13 @@ class C13(Check):
                 yield {'src': src, 'stages': stages, 'row': None}
             for r in range(len(t.rows)):
                 yield {'src': src, 'stages': stages, 'row': r}
+        # OpenmlSource: the reading pipeline it wires (ArffReader | DropRows(ignored columns, missing rows) | LabelRows(target))
+        for ds in M.OPENML:
+            for c in M.OPENML[ds]['cols']:
+                for dm in (True, False):
+                    yield {'openml': ds, 'target': c[0], 'drop_missing': dm}
+            for task_type in (1, 2):
+                yield {'openml': ds, 'target': 'y', 'drop_missing': True, 'task': task_type}
         # cross-row access orders: every order of first-accessing the rows of one lazy file
         for src in M.ORDER_SOURCES:
             n = len(M.source_model(src).rows)
@@ -423,6 +434,7 @@ class C13(Check):
         try:
             if 'reuse' in case: return self.run_reuse(case, acc)
             if 'order' in case: return self.run_order(case, acc)
+            if 'openml' in case: return self.run_openml(case, acc)
             if 'feats' in case: return self.run_feats(case, acc)
             return self._run_case(case, acc)
         finally:
@@ -472,6 +484,63 @@ class C13(Check):
             acc.outcome((type(row).__name__, t.kind, t.n if t.kind == 'dense' else len(t.rows[r]), (len(t.headers) if t.headers is not None else -1), t.label is not None))
             acc.count('rows_' + type(row).__name__)
         acc.count('histories', len(hs))
+
+    # -------------------------------------------------------------- OpenmlSource (served from a memory cacher, no network)
+    def run_openml(self, case, acc):
+        ds, target, dm, task = case['openml'], case['target'], case['drop_missing'], case.get('task')
+        acc.count('openml_cases'); acc.states += 1; acc.traces += 1; acc.mark_nontrivial()
+        # the eager table: ignored / row-identifier / non numeric-nominal columns removed (never the target), rows with a
+        # missing value removed when asked, target selected
+        stages = [['drop', M.openml_ignored(ds, target), ['missing'] if dm else None], ['label', target, {None: None, 1: 'c', 2: 'r'}[task]]]
+        plan = Plan(ds, stages)
+        t = plan.final
+        old = (CobaContext.cacher, getattr(CobaContext, 'store', None), CobaContext.api_keys)
+        try:
+            CobaContext.cacher = MemoryCacher(); CobaContext.store = {}; CobaContext.api_keys = {'openml': None}
+            did, tid = 7, 9
+            descr = {'data_set_description': {'id': str(did), 'file_id': '1', 'status': 'active', 'default_target_attribute': target}}
+            CobaContext.cacher.get_set(f'openml_{did:0>6}_data', json.dumps(descr).splitlines())
+            CobaContext.cacher.get_set(f'openml_{did:0>6}_feat', json.dumps({'data_features': {'feature': M.openml_features(ds)}}).splitlines())
+            CobaContext.cacher.get_set(f'openml_{did:0>6}_arff', M.openml_arff(ds))
+            if task:
+                tdescr = {'task': {'task_type_id': str(task), 'input': [{'name': 'source_data', 'data_set': {'data_set_id': str(did), 'target_feature': target}}]}}
+                CobaContext.cacher.get_set(f'openml_{tid:0>6}_task', json.dumps(tdescr).splitlines())
+                src = OpenmlSource(task_id=tid, drop_missing=dm)
+            else:
+                src = OpenmlSource(data_id=did, drop_missing=dm)
+            fail = None
+            try:
+                rows = list(src.read())
+            except Exception as e:   # noqa
+                fail = (None, ['build'], f'raises {type(e).__name__}', repr(e), f'{len(t.rows)} rows')
+            if fail is None and len(rows) != len(t.rows):
+                fail = (None, ['build'], 'wrong number of rows', len(rows), len(t.rows))
+            if fail is None:
+                for r in range(len(rows)):
+                    for op in ops_for(t, r):
+                        if op[0] == 'other': continue
+                        want = expect(t, r, op)
+                        acc.transitions += 1
+                        try:
+                            got = access(t, r, rows, op); mode = None if same(got, want) else 'wrong value'
+                        except Exception as e:   # noqa
+                            got, mode = repr(e), f'raises {type(e).__name__}'
+                        if mode: fail = (r, op, mode, got, want); break
+                    if fail: break
+        finally:
+            CobaContext.cacher, CobaContext.store, CobaContext.api_keys = old[0], (old[1] if old[1] is not None else {}), old[2]
+        acc.outcome(('openml', ds, len(t.rows), fail is None))
+        if fail is None: return
+        r, op, mode, got, want = fail
+        # the same pipeline wired by hand from fresh filters: if it fails the same access the ordinary cases own the finding
+        f2, _ = run_history(plan, r, [op] if op[0] != 'build' else [])
+        if any(f[1] == op and f[2] == mode for f in f2): return
+        kind = 'sparse' if M.OPENML[ds]['sparse'] else 'dense'
+        key = f'OpenmlSource|{FAMILY[op[0]]}: {mode}|{kind} ARFF dataset'
+        what = (f'OpenmlSource({"task" if task else "data"} id, drop_missing={dm}) on the {kind} dataset with target {target!r}: output row {r}, '
+                f'the access {op} gave {got!r}; the eager table (ignored columns {M.openml_ignored(ds, target)} and '
+                f'{"rows with missing values " if dm else "no rows "}removed, target selected) gives {want!r}')
+        acc.violation(key, what, case, order=(0, 7, acc._cur[0] if acc._cur else 0))
 
     # -------------------------------------------------------------- cross-row access orders of one lazy file
     def run_order(self, case, acc):
